@@ -88,11 +88,14 @@ def main():
                 ['secretstore/zz_verif_env.go', 'secretstore/zz_verif_rand.go', 'C09/zz_verif_c09.go'],
                 installers=[crypto.install, crypto.install_proto, c02.install, bmc.install, install], init_pkgs=[MOD + '/pkg/errcode'], prelude_pkgname='secretstore')
     P = MOD + '/pkg/secretstore.'
-    chk.load([P + 'VerifC09Concurrent'])
+    if t != 'quick':
+        chk.load([P + 'VerifC09Concurrent'])
     cfg = {'timeout_ms': 120000, 'unwind': 12, 'dec_as_term': True, 'chan_pool': 0}
-    grid = [(2, 1, 1)] if t == 'quick' else [(2, 1, 1), (2, 1, 0), (2, 2, 1), (3, 1, 1)]
+    # the one-formula BMC jobs run in the thorough tier only (10+ CPU minutes per job since the keystore is weshnet's own
+    # datastore keystore); the quick tier decides the same contract with the symbolic scheduler below
+    grid = [] if t == 'quick' else [(2, 1, 1), (2, 1, 0), (2, 2, 1), (3, 1, 1)]
     jobs = [Job(P + 'VerifC09Concurrent', a, cfg=cfg, max_paths=100000) for a in grid]
-    res = chk.run_jobs(jobs)
+    res = chk.run_jobs(jobs) if jobs else []
     chk.cleanup()
     # the same contract under the symbolic scheduler inside the interpreter (coop.py): one shared heap, real datastore semantics
     chk2 = Check('C09', c01.PKGS, 'pkg/secretstore',
@@ -102,11 +105,11 @@ def main():
     cgrid = [(2, 1, 1, 2), (2, 1, 0, 1)] if t == 'quick' else [(2, 1, 1, 3), (2, 1, 0, 2), (2, 2, 1, 2), (3, 1, 1, 2)]
     kj = []
     for (sn, per, same, pre) in cgrid:
-        K = 6 if t == 'quick' else 14
+        K = (6 if same == 1 else 3) if t == 'quick' else 14
         for i in range(K):
             kj.append(Job(P + 'VerifC09Coop', (sn, per, same), cfg={'timeout_ms': 60000, 'unwind': 12, 'dec_as_term': True}, installers=[functools.partial(_coop_inst, pre)],
                           shard=(i, K), max_paths=400000, label='VerifC09Coop(%d,%d,%d)[pre<=%d]#%d/%d' % (sn, per, same, pre, i, K)))
-    for ws in (0, 1):
+    for ws in ((0,) if t == 'quick' else (0, 1)):
         fpre = 2 if t == 'quick' else 3
         FK = 4
         for i in range(FK):
